@@ -1,106 +1,5 @@
-(* GENERATED by tools/gotrans arithC12 from the Go sources; do not edit.
-   One definition per listed Go function; Proofs/ArithTieC12.v proves each equal to the hand-written model. *)
-From Coq Require Import ZArith Bool.
-From Elys Require Import Base.Res Base.Zdec Base.ZdecChk Base.U64.
-Open Scope Z_scope.
-
-(* x/commitment/types (Commitments).DeductFromCommitted, pure mode (range panics and division by zero are not modelled)
-   slice: assign:c.CommittedTokens[i].Amount#1
-     amount : parameter amount
-     currTime : parameter currTime
-     isLiquidation : parameter isLiquidation
-     token_Amount : element of c.CommittedTokens .Amount *)
-Definition Deduct_newAmount (amount : Z) (currTime : Z) (isLiquidation : bool) (token_Amount : Z) : Z :=
-  (token_Amount - amount).
-
-(* x/commitment/types (Commitments).DeductFromCommitted, pure mode (range panics and division by zero are not modelled)
-   slice: guard:ErrInsufficientCommittedTokens
-     amount : parameter amount
-     currTime : parameter currTime
-     isLiquidation : parameter isLiquidation
-     token_Amount : element of c.CommittedTokens .Amount *)
-Definition Deduct_insufficientCommitted (amount : Z) (currTime : Z) (isLiquidation : bool) (token_Amount : Z) : bool :=
-  ((token_Amount - amount) <? 0).
-
-(* x/commitment/types (Commitments).DeductFromCommitted, pure mode (range panics and division by zero are not modelled)
-   slice: ifcond:#3
-     amount : parameter amount
-     currTime : parameter currTime
-     isLiquidation : parameter isLiquidation
-     lockup_UnlockTimestamp : element of token.Lockups .UnlockTimestamp *)
-Definition Deduct_keepLock (amount : Z) (currTime : Z) (isLiquidation : bool) (lockup_UnlockTimestamp : Z) : bool :=
-  ((currTime <? lockup_UnlockTimestamp) && (negb isLiquidation)).
-
-(* x/commitment/types (Commitments).DeductFromCommitted, pure mode (range panics and division by zero are not modelled)
-   slice: assign:lockedAmount#1
-     amount : parameter amount
-     currTime : parameter currTime
-     isLiquidation : parameter isLiquidation *)
-Definition Deduct_lockedInit (amount : Z) (currTime : Z) (isLiquidation : bool) : Z :=
-  0.
-
-(* x/commitment/types (Commitments).DeductFromCommitted, pure mode (range panics and division by zero are not modelled)
-   slice: assign:lockedAmount#2
-     amount : parameter amount
-     currTime : parameter currTime
-     isLiquidation : parameter isLiquidation
-     lockedAmount : value of lockedAmount at the start of an iteration of the loop
-     lockup_Amount : element of token.Lockups .Amount *)
-Definition Deduct_lockedStep (amount : Z) (currTime : Z) (isLiquidation : bool) (lockedAmount : Z) (lockup_Amount : Z) : Z :=
-  (lockedAmount + lockup_Amount).
-
-(* x/commitment/types (Commitments).DeductFromCommitted, pure mode (range panics and division by zero are not modelled)
-   slice: guard:ErrInsufficientWithdrawableTokens
-     amount : parameter amount
-     currTime : parameter currTime
-     isLiquidation : parameter isLiquidation
-     token_Amount : element of c.CommittedTokens .Amount
-     lockedAmount : value of lockedAmount after the loop `for _, lockup := range token.Lockups { if lockup.UnlockTimestamp > currTime && !isLiquidat...` *)
-Definition Deduct_insufficientWithdrawable (amount : Z) (currTime : Z) (isLiquidation : bool) (token_Amount : Z) (lockedAmount : Z) : bool :=
-  ((token_Amount - amount) <? lockedAmount).
-
-(* x/commitment/types (Commitments).DeductFromCommitted, pure mode (range panics and division by zero are not modelled)
-   slice: ifcond:#-1
-     amount : parameter amount
-     currTime : parameter currTime
-     isLiquidation : parameter isLiquidation
-     token_Amount : element of c.CommittedTokens .Amount *)
-Definition Deduct_removeEntry (amount : Z) (currTime : Z) (isLiquidation : bool) (token_Amount : Z) : bool :=
-  ((token_Amount - amount) =? 0).
-
-(* x/commitment/types (Commitments).AddCommittedTokens, pure mode (range panics and division by zero are not modelled)
-   slice: assign:c.CommittedTokens[i].Amount#1
-     amount : parameter amount
-     unlockTime : parameter unlockTime
-     token_Amount : element of c.CommittedTokens .Amount *)
-Definition AddCommitted_newAmount (amount : Z) (unlockTime : Z) (token_Amount : Z) : Z :=
-  (token_Amount + amount).
-
-(* x/commitment/types (Commitments).AddCommittedTokens, pure mode (range panics and division by zero are not modelled)
-   slice: ifcond:#2
-     amount : parameter amount
-     unlockTime : parameter unlockTime *)
-Definition AddCommitted_withLock (amount : Z) (unlockTime : Z) : bool :=
-  (negb (unlockTime =? 0)).
-
-(* x/commitment/types (Commitments).AddCommittedTokens, pure mode (range panics and division by zero are not modelled)
-   slice: ifcond:#3
-     amount : parameter amount
-     unlockTime : parameter unlockTime *)
-Definition AddCommitted_withLockNew (amount : Z) (unlockTime : Z) : bool :=
-  (negb (unlockTime =? 0)).
-
-(* x/commitment/types (Commitments).CommittedTokensLocked, pure mode (range panics and division by zero are not modelled)
-   slice: ifcond:#1
-     ctx_BlockTime_Unix : parameter ctx .BlockTime().Unix()
-     lockup_UnlockTimestamp : element of token.Lockups .UnlockTimestamp *)
-Definition Locked_isLocked (ctx_BlockTime_Unix : Z) (lockup_UnlockTimestamp : Z) : bool :=
-  ((u64_of_int ctx_BlockTime_Unix) <? lockup_UnlockTimestamp).
-
-(* x/commitment/types (Commitments).CommittedTokensLocked, pure mode (range panics and division by zero are not modelled)
-   slice: assign:lockedAmount#2
-     lockedAmount : value of lockedAmount at the start of an iteration of the loop
-     lockup_Amount : element of token.Lockups .Amount *)
-Definition Locked_step (lockedAmount : Z) (lockup_Amount : Z) : Z :=
-  (lockedAmount + lockup_Amount).
-
+(* gotrans failed on the current tree *)
+Definition handlers := gotrans_failed_on_the_current_tree_see_log.
+(* gotrans: arith C12: 1 function(s) outside the translator's scope:
+  x/commitment/types/commitments.go:51: x/commitment/types.AddCommittedTokens: value not available: x/commitment/types/commitments.go:51: x/commitment/types.AddCommittedTokens: call of a function value: len(token.Lockups)
+ *)
